@@ -12,11 +12,12 @@ META = {
 
 RULE = ("observe_on over EventLoopScheduler (also exit_if_empty), NewThreadScheduler and TimeoutScheduler with producer scripts of <= 4 calls "
         "(including calls after a terminal and a raising downstream callback at each position), two merged producers, and "
-        "ReplaySubject(scheduler=...) with an early and a late subscriber; non-trivial = distinct per-observer traces with at least one delivery")
+        "ReplaySubject(scheduler=...) - also on a CurrentThreadScheduler, where two drain chains would run concurrently - with an early and a late subscriber; non-trivial = distinct per-observer traces with at least one delivery")
 ASSUME = [
     "controlled schedules preempt only where the pinned GIL interpreter can: a subset of the language-level interleavings, so every reported schedule is realisable",
     "calls on one scheduled observer are serial (the Rx contract); the trace specification rejects overlapping calls as such",
-    "'on the target scheduler' is checked as: the delivering thread is one created by the scheduler's thread factory / timer",
+    "'on the target scheduler' is checked as: the delivering thread is one created by the scheduler's thread factory / timer; for the "
+    "CurrentThreadScheduler kind (a trampoline per calling thread) every scheduling thread belongs to the target scheduler, the clause is vacuous",
     "quiescence is the end of a controlled run: every logical thread finished or blocked with no timed wait pending; the trace ends with the "
     "idle observation, which the abstract object only allows when faulted or everything received was delivered",
     "the schedule search is cut at a per-scenario budget; the evidence lists up to which preemption count each scenario was explored completely",
